@@ -60,6 +60,12 @@ type Node struct {
 	skewNum                          int // timeouts are multiplied by skewNum/8
 	useWAL                           bool
 	lastProg                         time.Duration // last time the node committed
+	// what the WAL catch-up replay of the current start() consumed and reported (log tap)
+	replayMsgs     int
+	replayDone     bool
+	replayErr      string
+	startHeight    uint64 // height the consensus state was built for by the current start()
+	noReplayDamage bool   // the next restart leaves the WAL as it is (ModeWALReplay: restart after a repair)
 }
 
 type pendingTimer struct {
@@ -80,6 +86,18 @@ func (h failTap) Log(r *log.Record) error {
 	}
 	if strings.HasPrefix(r.Msg, "Evidence FaultVal") || strings.HasPrefix(r.Msg, "Evidence proposer error") || strings.HasPrefix(r.Msg, "Evidence round/height error") {
 		h.n.fveRejected = r.Msg + " " + fmt.Sprint(r.Ctx...)
+	}
+	if h.n.starting && strings.HasPrefix(r.Msg, "Replay: ") {
+		switch {
+		case r.Msg == "Replay: Done":
+			h.n.replayDone = true
+		case strings.HasPrefix(r.Msg, "Replay: wal.group.Search"):
+		default:
+			h.n.replayMsgs++
+		}
+	}
+	if h.n.starting && strings.HasPrefix(r.Msg, "Error on catchup replay") {
+		h.n.replayErr = fmt.Sprint(r.Ctx...)
 	}
 	if strings.Contains(r.Msg, "Error on ApplyBlock") {
 		h.n.killReq = true
@@ -329,6 +347,7 @@ func (n *Node) start() error {
 	csLogger := log.New("node", n.id)
 	csLogger.SetHandler(failTap{n})
 	state := cs.NewConsensusState(conf, chain.Status.Copy(), chain.BlockExec, n.app, chain.Mempool, chain.EvPool)
+	n.startHeight = chain.Status.LastBlockHeight + 1
 	state.SetEventBus(chain.EventBus)
 	state.SetLogger(csLogger)
 	state.SetPrivValidator(n.pv)
